@@ -422,7 +422,7 @@ func (p *Project) Render(opts RenderOpts) *Rendered {
 						}
 						start := runeLen(sig.String())
 						te := pr.Type.GoExpr(c.Pkg, q)
-						if m.GroupParams && i+1 < len(m.Params) && m.Params[i+1].Type.GoExpr(c.Pkg, q) == te {
+						if m.GroupParams && i+1 < len(m.Params) && m.Params[i+1].Type.GoExpr(c.Pkg, q) == te && !m.Params[i+1].OwnField {
 							// grouped field: the type follows the last name of the run
 							sig.WriteString(pr.GoName)
 						} else {
